@@ -67,14 +67,16 @@ def subOcc (cs : Bool) (pat s : List Nat) (o : Nat) : Prop :=
   if cs then pat.isPrefixOf (s.drop o) = true
   else (pat.map toLowerRune).isPrefixOf ((s.drop o).map toLowerRune) = true
 
+def NoNL (s : List Nat) (i j : Nat) : Prop := ∀ k, i ≤ k → k < j → s.getD k 0 ≠ 10
+
 mutual
-/-- the literal tree is satisfied inside the span `[i, j)` -/
+/-- the literal tree is satisfied inside the span `[i, j)`; a same-line node inside a sub-span without a newline -/
 def Lit.inSpan (s : List Nat) : Lit → Nat → Nat → Prop
   | .brute, _, _ => True
   | .none, _, _ => False
   | .sub pat cs, i, j => ∃ o, i ≤ o ∧ o + pat.length ≤ j ∧ subOcc cs pat s o
   | .and ch, i, j => Lit.allInSpan s ch i j
-  | .andLine ch, i, j => Lit.allInSpan s ch i j
+  | .andLine ch, i, j => ∃ i' j', i ≤ i' ∧ j' ≤ j ∧ NoNL s i' j' ∧ Lit.allInSpan s ch i' j'
   | .or ch, i, j => Lit.anyInSpan s ch i j
 def Lit.allInSpan (s : List Nat) : List Lit → Nat → Nat → Prop
   | [], _, _ => True
